@@ -10,3 +10,11 @@ Definition ising_bonds (L : nat) (periodic : bool) : list (nat * nat) :=
 Definition ising_fields (L : nat) : list nat := seq 0 L.
 (* the chain's nearest-neighbour bonds *)
 Definition chain_bonds (L : nat) : list (nat * nat) := map (fun i => (i, i + 1)) (seq 0 (L - 1)).
+(* create_heisenberg_circuit (one Trotter step): rz(-2 dt h) on every site, then the SAME bond pattern three times — rzz(-2 dt Jz),
+   rxx(-2 dt Jx), ryy(-2 dt Jy) *)
+Inductive hgate := HRz | HRzz | HRxx | HRyy.
+Definition heis_step (L : nat) (periodic : bool) : list (hgate * (nat * nat)) :=
+  map (fun q => (HRz, (q, q))) (seq 0 L) ++
+  map (pair HRzz) (ising_bonds L periodic) ++ map (pair HRxx) (ising_bonds L periodic) ++ map (pair HRyy) (ising_bonds L periodic).
+Definition bonds_of (g : hgate) (l : list (hgate * (nat * nat))) : list (nat * nat) :=
+  map snd (filter (fun x => match fst x, g with HRz, HRz | HRzz, HRzz | HRxx, HRxx | HRyy, HRyy => true | _, _ => false end) l).
